@@ -543,3 +543,50 @@ class PhasedGen(Gen):
 
     def _phase6(self, sim):
         self.phase = 7
+
+
+class BigGen(Gen):
+    """Scale: the same swarm generator with two-digit everything - 10+ requests of the same kind and function (group
+    indices >= 10), 10-40 tasks per request (task ids into the hundreds), pool sizes and num_concurrent >= 10,
+    stop(n)/cancel with two-digit ids.  Workers mostly finish at once so that the runs stay short in handles."""
+
+    def __init__(self, seed: int, prop: str, clean: bool = True):
+        super().__init__(seed, prop, clean)
+        rng = self.rng
+        self.nsteps = rng.choice([40, 60, 90])
+        self.max_reqs = rng.choice([12, 16, 24])
+        self.reentrant = rng.choice([0.0, 0.0, 0.1])
+        self.w["spawn"] *= 2.5
+        self.w["idle"] *= 1.5
+        self.w["gate"] *= 1.5
+
+    def make_config(self):
+        cfg = super().make_config()
+        for p in cfg["pools"][:1]:
+            p["size"] = self.rng.choice([None, 10, 11, 12, 16, 25, 3])
+        return cfg
+
+    def _script(self):
+        s = super()._script()
+        if self.rng.random() < 0.7:
+            s["g"] = 0 if "oc" not in s else 1
+        return s
+
+    def _g_spawn(self, sim, bad=None):
+        st = super()._g_spawn(sim, bad)
+        if st is None or bad is not None:
+            return st
+        rng = self.rng
+        st["fn"] = 0
+        if st["kind"] in ("apply", "start"):
+            st["num"] = rng.choice([1, 2, 10, 11, 12, 20, 33])
+            if st.get("fail"):
+                st["fail"] = [i for i in st["fail"] if i < st["num"]]
+        else:
+            if rng.random() < 0.6:
+                st["kind"] = "map"
+            n = rng.choice([2, 10, 11, 12, 25, 40])
+            st["elems"] = [0] * n
+            st["nc"] = rng.choice([1, 3, 10, 11, 16])
+            st.pop("fail", None)
+        return st
